@@ -552,27 +552,31 @@ func (x *Explorer) invokeIntrinsic(fr *Frame, st *State, ins *ssa.Call, recv Val
 			return &Sym{N: fmt.Sprintf("errtext(%d)", e.ID), T: ins.Type()}, true
 		}
 	case "EmitTypedEvent", "EmitTypedEvents":
-		ev := Event{Kind: "emit", Method: name, Args: args, Loop: x.loopTag(fr, ins.Block()), Pos: ins, Fn: fr.fn, Facts: len(st.facts), Seq: len(st.events)}
-		if len(args) == 1 {
-			if p, ok := args[0].(*Ptr); ok {
-				if o := st.mem[p.O]; o != nil {
-					ev.Row = map[string]Val{}
-					for k, v := range o.F {
-						ev.Row[strings.TrimPrefix(k, ".")] = v
-					}
-					if n := namedOf(o.T); n != nil {
-						ev.Method = n.Obj().Name()
-					}
-				}
-			}
-		}
-		st.events = append(st.events, ev)
-		e := &ErrV{ID: st.newID(), Origin: "emit"}
-		return e, true
+		return x.emitEvent(fr, st, ins, args), true
 	case "ConsumeGas":
 		return nil, true
 	}
 	return nil, false
+}
+
+// emitEvent records a typed event emission with the fields of the event literal.
+func (x *Explorer) emitEvent(fr *Frame, st *State, ins *ssa.Call, args []Val) Val {
+	ev := Event{Kind: "emit", Method: "EmitTypedEvent", Args: args, Loop: x.loopTag(fr, ins.Block()), Pos: ins, Fn: fr.fn, Facts: len(st.facts), Seq: len(st.events)}
+	if len(args) >= 1 {
+		if p, ok := args[len(args)-1].(*Ptr); ok {
+			if o := st.mem[p.O]; o != nil {
+				ev.Row = map[string]Val{}
+				for k, v := range o.F {
+					ev.Row[strings.TrimPrefix(k, ".")] = v
+				}
+				if n := namedOf(o.T); n != nil {
+					ev.Method = n.Obj().Name()
+				}
+			}
+		}
+	}
+	st.events = append(st.events, ev)
+	return &ErrV{ID: st.newID(), Origin: "emit"}
 }
 
 func (x *Explorer) iterValue(fr *Frame, st *State, ins *ssa.Call, it *IterV) Val {
